@@ -121,7 +121,7 @@ def _random_op(r, cur):
 TYPES = ["URBAN", "COUNTRY", "HIGHWAY", "DRIVE_WAY"]
 
 
-def build_network(net):
+def build_network(net, deferred_index=False):
     import numpy as np
     from commonroad.common.common_lanelet import LaneletType, LineMarking, StopLine
     from crv import gamma as G
@@ -148,7 +148,7 @@ def build_network(net):
             q = net["inc"][str(k)]
             incs.append((k, q["il"], q["sr"], q["ss"], q["sl"]))
         inters.append(G.intersection(31, incs, net["cr"]))
-    return G.network(lanelets, signs, lights, inters)
+    return G.network(lanelets, signs, lights, inters, deferred_index=deferred_index)
 
 
 def cut_shape(K, variant):
@@ -270,9 +270,12 @@ def execute(case):
         netd, ops, r = dict(case["net"]), case["ops"], None
         # TLC prints functions over 1..NL as arrays and the incoming table as an object
         netd = {k: v for k, v in netd.items()}
-    net = build_network(netd)
-    ev = []
     variant = (case.get("seed", 0) or sum(len(o["ids"]) for o in (ops or []))) % 6
+    # the contract does not depend on the state of the spatial index: a third of the networks is assembled with
+    # add_lanelet(..., rtree=False) (public option: index rebuild deferred), so removals / cut-outs meet a stale index
+    deferred = (case.get("seed", 0) // 6 + len(json.dumps(netd, sort_keys=True))) % 3 == 1
+    net = build_network(netd, deferred_index=deferred)
+    ev = []
     steps = len(ops) if ops is not None else 3
     for step in range(steps):
         pre = project(net)
@@ -286,7 +289,7 @@ def execute(case):
             res, detail = "exc:" + type(ex).__name__, "exc"
         post = project(net)
         ev.append({"op": a["op"], "ids": list(a["ids"]), "ref": a["ref"], "res": res, "pre": pre, "post": post,
-                   "sig": "%s[%s]" % (a["op"], detail)})
+                   "sig": "%s[%s]%s" % (a["op"], detail, "@deferred-index" if deferred else "")})
         if res != "ok":
             break
     return {"ev": ev}
